@@ -94,6 +94,7 @@ def named_ranges(run, addrs):
     # renaming a table updates the named ranges that point to it (and only them)
     for i, p in enumerate(addrs[:: max(1, len(addrs) // 150)]):
         new = "".join(map(chr, p["name"]))
+        rng_pad = random.Random(new)
         doc = Document("spreadsheet")
         body = doc.body
         body.clear()
@@ -113,13 +114,24 @@ def named_ranges(run, addrs):
         if own != ["ra", "rb"]:
             run.violation("named-ranges|lookup-by-table-name", {"kind": "lookup", "got": own, "want": ["ra", "rb"]})
         run.count()
+        # the caller may give the new name with blanks around it: the setter strips them (C07), and the table and its ranges
+        # must agree on the stripped name
+        padded = rng_pad.choice(["", "", " ", "  "]) + new + rng_pad.choice(["", "", " ", "\t"])
         try:
-            t1.name = new
+            t1.name = padded
             doc2 = Element.from_tag(body.serialize())
             got = {n.name: (n.table_name, list(n.crange)) for n in doc2.get_named_ranges()}
+            stored = doc2.get_tables()[0].name
+            if stored != new.strip():
+                run.violation("rename|table-name-not-stripped", {"kind": "rename", "given": padded, "stored": stored})
+                continue
+            vals = doc.body.get_named_range("ra").get_values()      # (in the live document: a named range reads its table through it)
+            if not isinstance(vals, list):
+                run.violation("rename|range-values", {"kind": "rename", "given": padded, "got": repr(vals)[:100]})
         except Exception as ex:  # noqa: BLE001
             run.violation("rename|exc", {"kind": "exc", "name": new, "got": repr(ex)})
             continue
+        new = new.strip()
         want = {"ra": (new, [0, 0, 1, 1]), "rb": (new, [2, 2, 2, 2]), "rc": ("one", [0, 0, 0, 0]), "rd": ("first", [1, 1, 1, 1]),
                 "re": ("the first one here", [0, 1, 0, 1])}
         run.klass("rename", "quoted" if any(ch in new for ch in " .'$") else "bare")
